@@ -32,6 +32,19 @@ def full_stage(chk, pid, tier, seed):
         inp, opts, feats = GF.gen_full(rng, "small" if i % 3 else "medium")
         meta[str(i)] = (inp, opts)
         blocks.append((str(i), GF.case_lines(inp, opts, {"iterations": 100, "duration_ms": 2500, "runs": 1 + (i % 5 == 0), "starts": 1 + (i % 4 == 0), "output": 2})))
+    if pid == "C04":
+        # time-dependent duration matrices with departures around the frame boundaries, off the minute
+        for i in range(80 if tier == "quick" else 2500):
+            inp, opts, feats = GF.gen_full(rng, "small" if i % 3 else "medium", force={"td": True, "windows": (i % 2 == 0)})
+            meta["t%d" % i] = (inp, opts)
+            blocks.append(("t%d" % i, GF.case_lines(inp, opts, {"iterations": 60, "duration_ms": 2500, "runs": 1, "starts": 1, "output": 2})))
+    if pid == "C02":
+        # alternates that carry the temporal fields of a stop, some of them only
+        for i in range(80 if tier == "quick" else 2500):
+            inp, opts, feats = GF.gen_full(rng, "small" if i % 3 else "medium", force={"alternates": True, "windows": True})
+            opts["constraints"]["disable"]["start_time_windows"] = False
+            meta["t%d" % i] = (inp, opts)
+            blocks.append(("t%d" % i, GF.case_lines(inp, opts, {"iterations": 60, "duration_ms": 2500, "runs": 1, "starts": 1, "output": 2})))
     if pid == "C05":
         # objective terms that the general stream seldom switches on: capacity excess as an objective (constraint off for one or
         # all resources), min-stops shortfall, stop balance
